@@ -214,6 +214,8 @@ class C01(Prop):
                 seed = rng.randrange(1 << 30)
                 yield Case('stateless_run', (e['name'], seed, random_ops(rng, maxlen=12)))
         for nm in ('randomtable', 'dummytable'):
+            yield Case('same_view', (nm, rng.randrange(1 << 20)))
+        for nm in ('randomtable', 'dummytable'):
             for _ in range(3 * reps):
                 yield Case('stateless_run', (nm, rng.randrange(1 << 30), random_ops(rng, maxlen=12)))
 
@@ -239,6 +241,11 @@ class C01(Prop):
 
     def impl(self, case):
         import petl as etl
+        if case.op == 'const_true':
+            try:
+                return codec.t_bool(self._same_view(*case.arg))
+            except Exception as e:   # noqa
+                return enc_exc(e)
         if case.op == 'sv_run':
             key, rev, bs, cache, t, ops = case.arg
             with tempfile.TemporaryDirectory(dir='/var/tmp') as td:
@@ -289,7 +296,23 @@ class C01(Prop):
         self._lasts[case.key()] = (tr, fresh)
 
     # the model of a stateless view needs the solo pass of a FRESH identical view as its input
+    def _same_view(self, name, n):
+        """a table built WITHOUT a seed: whatever it is, the same view object must say the same thing to every iterator"""
+        import petl as etl
+        import random as _r
+        v = etl.randomtable(3, 5) if name == 'randomtable' else etl.dummytable(5)
+        first = list(v)
+        _r.random()
+        a, b = iter(v), iter(v)
+        inter = []
+        for _ in range(4):
+            inter.append((next(a), next(b)))
+            _r.random()
+        return list(v) == first and all(x == y for x, y in inter) and [x for x, _ in inter] == first[:4] and list(v) == first
+
     def expand(self, case):
+        if case.op == 'same_view':
+            return Case('const_true', case.arg, dict(case.meta, orig='same_view'))
         if case.op == 'stateless_run' and 'orig' not in case.meta:
             sol = self._solo_for(case)
             c = Case('stateless_run', (codec.uncanon(('li', tuple(sol))), case.arg[2]), dict(case.meta, orig=list(case.arg[:2])))
@@ -297,6 +320,8 @@ class C01(Prop):
         return case
 
     def spec(self, case, impl_obs, model_obs):
+        if case.op == 'const_true':
+            return impl_obs == codec.t_bool(True)
         # the property itself, on the implementation's trace: prefix of a solo pass of a fresh identical view,
         # and a fresh pass after the schedule equals the solo pass
         tr, fresh = getattr(self, '_lasts', {}).get(case.key(), (None, None))
@@ -316,6 +341,8 @@ class C01(Prop):
         return prefix_ok(tr, sol) and fresh == sol
 
     def valid(self, case):
+        if case.op in ('const_true', 'same_view'):
+            return len(case.arg) == 2 and case.arg[0] in ('randomtable', 'dummytable')
         try:
             ops = case.arg[-1]
             if not ops or ops[0] != (0,):
@@ -334,6 +361,8 @@ class C01(Prop):
             return False
 
     def nontrivial(self, case):
+        if case.op in ('const_true', 'same_view'):
+            return True
         ops = case.arg[-1]
         return sum(1 for o in ops if o[0] == 0) >= 2
 
